@@ -461,10 +461,10 @@ def step(h, i):
         operands.append(e)
         s = e["schema"]
         v = rng.choice(e["probes"]) if rng.random() < 0.6 else plain_value(2)
-        if rng.random() < 0.15:
+        if rng.random() < (0.5 if isinstance(s, (ListSchema, DictSchema)) else 0.1):
             # unsorted / duplicate-laden containers: an implementation that normalises its argument in place shows here
             v = rng.choice(([5, 3, 9, 1, 7], [3, 3, 1, 2, 2, 0], {"b": 2, "a": 1, "c": [2, 1]}, ["b", "a", "c", "a"],
-                            [[2, 1], [1, 2], [0]]))
+                            [[2, 1], [1, 2], [0]], [9, 8, 7, 6, 5, 4]))
         owned = not has_odd(v)
         v = copy.deepcopy(v) if owned else v
         out = h.run("substitute", lambda s=s, v=v: substitute(s, v), args=[v], operands=operands,
